@@ -1612,3 +1612,64 @@ func GenSibling(t *rapid.T, cfg Config, c *Chain) *Chain {
 	sanitize(b)
 	return b
 }
+
+// Shared is a reusable-handle scenario: Prefix is performed once on the handle
+// h (several calls of each appending clause kind: Where, Having with Group,
+// Order), then the siblings AddA and AddB each add one more call of every kind
+// to h. FullA / FullB describe the resulting statements (prefix + own calls).
+type Shared struct {
+	Prefix, AddA, AddB, FullA, FullB *Chain
+}
+
+// GenShared draws a Shared scenario on a table that can be grouped.
+func GenShared(t *rapid.T, cfg Config) Shared {
+	g := &gen{t: t, cfg: cfg}
+	base := g.oneOf("sharedbase", "item", "tag", "t:items")
+	table, _ := tableOf(base)
+	gcol := "owner_id"
+	if table == "tags" {
+		gcol = "item_id"
+	}
+	sc := scope{table: table, depth: 2}
+	where := func() Cond { return Cond{Op: "where", U: Unit{Form: "tmpl", T: g.posTmpl(sc, 1, "", false)}} }
+	having := func() Unit {
+		switch g.pick("sharedhaving", 3) {
+		case 0:
+			return Unit{Form: "tmpl", T: &Tmpl{SQL: "COUNT(*) <> ?", Slots: []Slot{{A: Arg{V: pv(g.intVal())}}}}}
+		case 1:
+			return Unit{Form: "tmpl", T: &Tmpl{SQL: gcol + " NOT IN (?)", Slots: []Slot{{A: Arg{V: pv(g.slice("int", false, false))}, Paren: true}}}}
+		default:
+			cl := Cl{Op: "neq", Col: gcol, A: &Arg{V: pv(g.intVal())}}
+			return Unit{Form: "clause", Cl: &cl}
+		}
+	}
+	order := func() string { return g.oneOf("sharedorder", gcol, gcol+" DESC", "n", "n DESC") }
+
+	p := &Chain{Kind: "query", Base: base, Group: gcol, SelCols: []string{gcol, "COUNT(*) AS n"}}
+	for i, n := 0, g.pick("nprewhere", 8); i < n; i++ {
+		p.Conds = append(p.Conds, where())
+	}
+	for i, n := 0, g.pick("nprehaving", 8); i < n; i++ {
+		p.PreHavings = append(p.PreHavings, having())
+	}
+	for i, n := 0, g.pick("npreorder", 8); i < n; i++ {
+		p.PreOrders = append(p.PreOrders, order())
+	}
+	sib := func() (*Chain, *Chain) {
+		h := having()
+		add := &Chain{Kind: "query", Base: base, Fin: "find", Conds: []Cond{where()}, Having: &h, OrderStr: order()}
+		full := *p
+		full.Fin = "find"
+		full.Conds = append(append([]Cond(nil), p.Conds...), add.Conds...)
+		full.Having, full.OrderStr = add.Having, add.OrderStr
+		return add, &full
+	}
+	var s Shared
+	s.Prefix = p
+	s.AddA, s.FullA = sib()
+	s.AddB, s.FullB = sib()
+	for _, c := range []*Chain{s.Prefix, s.AddA, s.AddB} {
+		sanitize(c)
+	}
+	return s
+}
